@@ -27,9 +27,12 @@ type XSpec struct {
 	NonTrivial func(w *World) bool
 	// AllowSingleObservation names scenarios that legitimately have one outcome.
 	AllowSingleObservation map[string]bool
+	// Batch: many small scenarios; whole scenarios (not subtrees) are the unit of parallel work.
+	Batch bool
 }
 
 type xjob struct {
+	Idx      []int  `json:"idx,omitempty"`
 	Scenario string `json:"sc"`
 	Prefix   []int  `json:"prefix"`
 	Deadline int64  `json:"deadline"`
@@ -90,6 +93,31 @@ func (x *XSpec) Main() {
 		if err := json.Unmarshal([]byte(run.Job()), &j); err != nil {
 			vr.HarnessError("job: %v", err)
 		}
+		if len(j.Idx) > 0 {
+			var tot sched.Stats
+			per := map[string]any{}
+			for _, i := range j.Idx {
+				sc := x.Scenarios[i]
+				b := x.Bounds(sc)
+				b.Deadline = time.Unix(j.Deadline, 0)
+				obs := map[string]int{}
+				r, v := x.visit(sc, obs)
+				st := sched.Explore(nil, b, r, v)
+				tot.Add(st)
+				if st.Truncated {
+					run.Truncated("budget reached inside scenario " + sc.Name)
+				}
+				cls := map[string]bool{}
+				for o := range obs {
+					cls[strings.SplitN(o, ";", 2)[0]] = true
+				}
+				for c := range cls {
+					run.Outcome(c)
+				}
+				per[fmt.Sprint(i)] = len(obs)
+			}
+			run.FinishWorker(map[string]any{"executions": tot.Executions, "points": tot.Points, "max_points": tot.MaxPoints, "obs_per_scenario": per})
+		}
 		sc := x.find(j.Scenario)
 		b := x.Bounds(sc)
 		b.Deadline = time.Unix(j.Deadline, 0)
@@ -110,6 +138,9 @@ func (x *XSpec) Main() {
 	}
 	states := map[string]bool{}
 	var totalExec, totalPoints int64
+	if x.Batch {
+		x.batchMaster(deadline, workers)
+	}
 	for _, sc := range x.Scenarios {
 		b := x.Bounds(sc)
 		obs := map[string]int{}
@@ -206,4 +237,66 @@ func tail(s string, n int) string {
 		return s[len(s)-n:]
 	}
 	return s
+}
+
+func (x *XSpec) batchMaster(deadline time.Time, workers int) {
+	run := x.Run
+	n := len(x.Scenarios)
+	chunk := n/(workers*6) + 1
+	var mu sync.Mutex
+	var wg sync.WaitGroup
+	sem := make(chan struct{}, workers)
+	var st sched.Stats
+	distinctObs := 0
+	for lo := 0; lo < n; lo += chunk {
+		hi := lo + chunk
+		if hi > n {
+			hi = n
+		}
+		idx := make([]int, 0, hi-lo)
+		for i := lo; i < hi; i++ {
+			idx = append(idx, i)
+		}
+		wg.Add(1)
+		sem <- struct{}{}
+		go func() {
+			defer wg.Done()
+			defer func() { <-sem }()
+			jb, _ := json.Marshal(xjob{Idx: idx, Deadline: deadline.Unix()})
+			cmd := exec.Command(os.Args[0], "--tier", run.Tier, "--job", string(jb))
+			cmd.Env = append(os.Environ(), "GOMAXPROCS=1")
+			var out, errb bytes.Buffer
+			cmd.Stdout, cmd.Stderr = &out, &errb
+			if err := cmd.Run(); err != nil {
+				vr.HarnessError("batch worker %v failed: %v\n%s", idx, err, tail(errb.String(), 3000))
+			}
+			mu.Lock()
+			defer mu.Unlock()
+			extra := run.Merge(lastLine(out.Bytes()))
+			st.Executions += int64(num(extra["executions"]))
+			st.Points += int64(num(extra["points"]))
+			if mp := int(num(extra["max_points"])); mp > st.MaxPoints {
+				st.MaxPoints = mp
+			}
+			if per, ok := extra["obs_per_scenario"].(map[string]any); ok {
+				for _, v := range per {
+					distinctObs += int(num(v))
+				}
+			}
+		}()
+	}
+	wg.Wait()
+	// determinism: first and last scenario, default schedule, twice
+	for _, sc := range []*Scenario{x.Scenarios[0], x.Scenarios[n-1]} {
+		if a, b := Run(sc, nil, false).Observation(), Run(sc, nil, false).Observation(); a != b {
+			vr.HarnessError("nondeterminism in scenario %s", sc.Name)
+		}
+	}
+	run.Set("scenarios", n)
+	run.Set("states", distinctObs)
+	run.Set("transitions", st.Points)
+	run.Set("traces_validated_against_impl", st.Executions)
+	run.Set("max_points_per_execution", st.MaxPoints)
+	run.Set("explanation", "states = sum over histories of distinct final observation vectors; transitions = scheduling points executed; every trace is an execution of the real client code under the controlled scheduler")
+	run.Finish()
 }
